@@ -6,7 +6,7 @@
    The per-protocol send->receive round trips are theorems about the packet models of Model.v
    (sender's datagram = what the node passes to sendto; receiver = node with one registered handler). *)
 From OlaBase Require Import Bytes.
-From C07 Require Import Gen Model ModelNet2 ModelStream ModelMulti ModelHist ModelExt ModelMerge ModelSrc ModelEsp ListLemmas RleProofs RleMore NetProofs NetProofs2 StreamProofs MultiProofs HistProofs ExtProofs StreamProofs2 ExtProofs2 MergeProofs SrcProofs EspProofs OffsetProofs.
+From C07 Require Import Gen Model ModelNet2 ModelStream ModelMulti ModelHist ModelExt ModelMerge ModelSrc ModelEsp ListLemmas RleProofs RleMore NetProofs NetProofs2 StreamProofs MultiProofs HistProofs ExtProofs StreamProofs2 ExtProofs2 MergeProofs SrcProofs EspProofs OffsetProofs ScriptProofs.
 Local Open Scope N_scope.
 
 (* the constants the statements below spell out as literals *)
@@ -406,6 +406,42 @@ Proof.
 Qed.
 Print Assumptions c07_e131_offset_send.
 
+(* ===== proof round after wave 8 ===== *)
+(* E1.31, both revisions, one long-lived sender: scripts that mix regular sends (any universe,
+   priority 0..200, frame of 0-512 slots), SetSourceName / StartStream calls and sends with a sequence
+   offset of -1 .. -20 (frames BEHIND the stream, to any universe): whatever happens to the offset
+   frames themselves, every regular frame sent to hu runs the handler and leaves exactly that frame,
+   and a regular frame to another universe does not run it.  The invariant carried through the script
+   is that the receiver is at most 20 behind the stream's next sequence number. *)
+Theorem c07_e131_sender_script_offsets : forall rev2 cid name hu ip ops old,
+  Forall (fun op => match op with
+                    | S2Send u prio f => 1 <= u /\ u <= 65534 /\ prio <= 200 /\ len f <= 512
+                    | S2Touch _ => True
+                    | S2Behind u prio k f => 1 <= u /\ u <= 65534 /\ prio <= 200 /\ len f <= 512 /\
+                                             1 <= k /\ k <= 20
+                    end) ops ->
+  exists m' st', send_script2 rev2 cid name hu ip ops [] (fresh_rx old) = (expect_script2 hu ops, m', st').
+Proof.
+  intros. apply send_script2_ok; try assumption.
+  - intros u s L. discriminate L.
+  - exact I.
+Qed.
+Print Assumptions c07_e131_sender_script_offsets.
+
+(* A frame sent k AHEAD of the stream (offset +k, 1 <= k <= 19) to a receiver that follows the stream:
+   it is accepted and moves the receiver's sequence to s + k; the next k + 1 regular frames (sequence
+   s .. s + k) are then stale - ignored, state unchanged - and the one after them is delivered again.
+   (This is the unchanged code's behaviour of its test entry point, stated exactly.) *)
+Theorem c07_e131_offset_ahead : forall prio s k f g st sb,
+  s < 256 -> 1 <= k -> k <= 19 -> rx_src st = Some (u8 (s + 255), sb) ->
+  exists st1,
+    track_tail prio (u8 (s + k)) false f st = Some (st1, true) /\
+    rx_src st1 = Some (u8 (s + k), buf_set f) /\
+    (forall i, i <= k -> track_tail prio (u8 (s + i)) false g st1 = Some (st1, false)) /\
+    exists st2, track_tail prio (u8 (s + (k + 1))) false g st1 = Some (st2, true) /\ rx_buf st2 = buf_set g.
+Proof. exact offset_ahead. Qed.
+Print Assumptions c07_e131_offset_ahead.
+
 (* ---- non-vacuity and the pre-fix failures as concrete evaluations of the (fixed) model *)
 Definition ramp (n : nat) : list N := map (fun i => N.of_nat ((i * 7 + 3) mod 256)) (seq 0 n).
 (* 128 distinct slots: the unfixed encoder emitted the count byte 0x80 here *)
@@ -507,3 +543,11 @@ Example ex_esp_rle :
   esp_decode [254; 3; 253; 9; 253; 254; 253; 254] (Some [1]) = Some (Some [253; 253; 253; 9; 254; 254]) /\
   esp_decode (esp_encode (repeat 254 512)) (Some []) = Some (Some (repeat 254 512)).
 Proof. vm_compute. repeat split; reflexivity. Qed.
+Example ex_script_offsets :
+  match send_script2 false (repeat 1 16) [] 5 true
+          [S2Send 5 100 [1]; S2Behind 5 100 5 [9]; S2Send 5 100 [2]; S2Touch 5; S2Behind 6 100 20 [9];
+           S2Send 6 100 [7]; S2Send 5 100 [3]] [] (fresh_rx None) with
+  | (obs, _, _) => obs = [Some (true, Some [1]); None; Some (true, Some [2]); None; None;
+                          Some (false, None); Some (true, Some [3])]
+  end.
+Proof. vm_compute. reflexivity. Qed.
